@@ -651,13 +651,17 @@ func (*Ufs) Stat(req *SrvReq) {
 		req.RespondError(Eunknownfid)
 		return
 	}
-	err := fid.stat()
-	if err != nil {
-		req.RespondError(err)
+	// look at the fid once: a walk in place pipelined on the same fid may
+	// move it meanwhile, and name and metadata must be those of one file
+	path := fid.path
+	fi, e := os.Lstat(path)
+	if e != nil {
+		req.RespondError(toError(e))
 		return
 	}
+	fid.st = fi
 
-	st, derr := dir2Dir(fid.path, fid.st, req.Conn.Dotu, req.Conn.Srv.Upool)
+	st, derr := dir2Dir(path, fi, req.Conn.Dotu, req.Conn.Srv.Upool)
 	if st == nil {
 		req.RespondError(derr)
 		return
